@@ -93,6 +93,9 @@ INFO = {
     "C15-a2": ("C15", "verify_memo's durability shortcut marks the memo verified before checking that it is still provisional",
                "converge -> diverge (iteration-limit panic) -> converge, entered through an ordinary function that depends on the head: the stale poison is re-stamped and answers PropagatedPanic",
                ["C15"]),
+    "C03-a3": ("C03", "can_backdate refuses to backdate when the old memo was fully tracked and the new execution read untracked state",
+               "a function that is tracked in its first execution, is legitimately re-executed after a write and then reports an untracked read for the first time with an equal value: its dependent is re-executed without a justification",
+               ["C03"]),
 }
 
 
